@@ -12,6 +12,153 @@ def _c10_case(c):
     return {"raw": c}
 
 
+# ---- thorough tier: re-evaluation of a sample of kill cases inside Coq (vm_compute), independent of
+# the extraction and of the OCaml driver (whose history/crash expansion is restated in Gallina here)
+_VM_PRELUDE = """From Oras Require Import Base.Prelude Generated.GC10 Model.OciCrash.
+Definition vm_good (d : N) (n : nat) : list N := map (fun i => d * 4096 + N.of_nat i) (seq 0 n).
+Definition vm_bad (d : N) (n : nat) : list N :=
+  match n with O => [] | S m => vm_good d m ++ [d * 4096 + 4095] end.
+Definition vm_H (tbl : list (N * nat)) (c : list N) : N :=
+  match find (fun e => list_eqb N.eqb c (vm_good (fst e) (snd e))) tbl with Some e => fst e | None => 0 end.
+Definition vm_id (_ : nat) (l : list entry) : list entry := l.
+Section VM.
+Variable H : list N -> N.
+Notation RUNOP := (run_op H vm_id src_inplace src_unlink_first).
+Notation STEPS := (op_steps H vm_id src_inplace src_unlink_first).
+Notation HOP := (run_hop H vm_id src_inplace src_unlink_first).
+Fixpoint vm_crash_call (s : st) (ops : list op) (j : nat) : st :=
+  match ops with
+  | [] => HOP s (Crashed SaveIndex 0)
+  | o :: r => let n := length (STEPS s o) in
+              if Nat.leb j n then HOP s (Crashed o j) else vm_crash_call (RUNOP s o) r (j - n)
+  end.
+Definition vm_hist (hist : list (list op * option nat)) : st :=
+  fold_left (fun s c => match snd c with
+                        | None => run H vm_id src_inplace src_unlink_first (fst c) s
+                        | Some j => vm_crash_call s (fst c) j
+                        end) hist init.
+Definition vm_view (hist : list (list op * option nat)) (fin : list op) (j : nat) (ids : list N) (expect : list entry) :=
+  let s := vm_hist hist in
+  let fsk := crash_seq H vm_id src_inplace src_unlink_first s fin j in
+  (layout_okb fsk,
+   map (fun d => match files fsk (FBlob d) with
+                 | Some f => Some (length (fcontent f), fro f) | None => None end) ids,
+   match read_index fsk with
+   | Some l => Some (length l, forallb (fun e => existsb (entry_eqb e) l) expect)
+   | None => None
+   end).
+End VM.
+"""
+
+
+def _c10_vm_call(toks, blobs):
+    n = {b[0]: b[1] for b in blobs}
+    man = {b[0]: b[2] for b in blobs}
+    k = toks[0]
+    if k == "push":
+        d = int(toks[1]); return ["Push %d (vm_good %d %d) %s" % (d, d, n[d], "true" if man[d] else "false")]
+    if k == "pushbad":
+        d = int(toks[1]); return ["Push %d (vm_bad %d %d) %s" % (d, d, n[d], "true" if man[d] else "false")]
+    if k == "tag":
+        return ["Tag %s %s" % (toks[1], toks[2])]
+    if k == "untag":
+        return ["Untag %s" % toks[1]]
+    if k == "delete":
+        return ["Delete %s" % toks[1]]
+    if k == "saveindex":
+        return ["SaveIndex"]
+    if k == "dgc":
+        return ["Delete %s" % t for t in toks[1:]]
+    if k == "gc":
+        swept = [int(x) for x in toks[1:]]
+        live = [b[0] for b in blobs if b[0] not in swept]
+        return ["Forget [%s]" % "; ".join(str(x) for x in live)] + ["Delete %d" % x for x in swept]
+    if k == "reopen":
+        return []
+    raise ValueError(k)
+
+
+def _c10_vm_goal(case, out):
+    p = case.split(" ")
+    if p[0] != "K" or p[2].endswith("final=init") or "MODEL-NOT" in out:
+        return None
+    j = int(p[1])
+    f = dict(x.split("=", 1) for x in p[2].split(";"))
+    blobs = [tuple(int(y) for y in x.split(":")) for x in f["blobs"].split(",") if x]
+    hist = []
+    for it in [x for x in f["hist"].split(",") if x]:
+        t = it.split(":")
+        if t[0] == "crash":
+            hist.append("([%s], Some %s%%nat)" % ("; ".join(_c10_vm_call(t[2:], blobs)), t[1]))
+        else:
+            hist.append("([%s], None)" % "; ".join(_c10_vm_call(t, blobs)))
+    fin = _c10_vm_call(f["final"].split(":"), blobs)
+    toks = out.split(" ")[1:]
+    layout = "true" if "F:L=ok" in toks else "false"
+    view = {}
+    idx = None
+    for t in toks:
+        if t.startswith("F:B"):
+            name, val = t[3:].split("=", 1)
+            v = val.split(":")
+            if v[0] == "?":
+                return None
+            view[int(name)] = "Some (%s%%nat, %s)" % (v[1], "true" if v[3] == "ro" else "false")
+        elif t.startswith("F:I="):
+            val = t[4:]
+            if val.startswith("["):
+                es = [e for e in val[1:-1].split(",") if e]
+                idx = "Some (%d%%nat, true)" % len(es)
+                exp = "; ".join("(%s, %s)" % (e.split("@")[0], "None" if e.split("@")[1] == "-" else "Some %s" % e.split("@")[1]) for e in es)
+    if idx is None:
+        idx, exp = "None", ""
+    ids = [b[0] for b in blobs]
+    tbl = "; ".join("(%d, %d%%nat)" % (b[0], b[1]) for b in blobs)
+    return ("vm_view (vm_H [%s]) [%s] [%s] %d%%nat [%s] [%s]\n  = (%s, [%s], %s)"
+            % (tbl, "; ".join(hist), "; ".join(fin), j, "; ".join(str(i) for i in ids), exp, layout,
+               "; ".join(view.get(i, "None") for i in ids), idx))
+
+
+def _c10_vm_sample(d, tier, coq, build, want=150):
+    import os, subprocess
+    if tier != "thorough":
+        return []
+    outs = {}
+    with open(os.path.join(d, "model.txt")) as f:
+        for l in f:
+            i, _, o = l.rstrip("\n").partition(" ")
+            outs[i] = o
+    cand = []
+    with open(os.path.join(d, "cases.txt")) as f:
+        for l in f:
+            i, _, c = l.rstrip("\n").partition(" ")
+            if c.startswith("K ") and i in outs:
+                cand.append((i, c))
+    goals = []
+    stride = max(1, len(cand) // want)
+    for i, c in cand[::stride]:
+        g = _c10_vm_goal(c, outs[i])
+        if g:
+            goals.append((i, g))
+    vdir = os.path.join(build, "vm")
+    os.makedirs(vdir, exist_ok=True)
+    vf = os.path.join(vdir, "C10_cases.v")
+    with open(vf, "w") as f:
+        f.write(_VM_PRELUDE)
+        for i, g in goals:
+            f.write("\n(* %s *)\nGoal %s.\nProof. vm_compute. reflexivity. Qed.\n" % (i, g))
+    p = subprocess.run(["coqc", "-R", coq, "Oras", "-w", "-notation-overridden", vf], cwd=vdir, timeout=1500,
+                       stdout=subprocess.PIPE, stderr=subprocess.STDOUT, text=True)
+    with open(os.path.join(d, "vm_sample.txt"), "w") as f:
+        f.write("%d goals rc=%d\n%s" % (len(goals), p.returncode, p.stdout[-3000:]))
+    if p.returncode != 0:
+        return ["vm_compute re-evaluation of %d sampled kill cases inside Coq disagrees with the extracted runner (or does not type-check): %s"
+                % (len(goals), p.stdout[-1200:])]
+    if len(goals) < want // 3:
+        return ["vm_compute sample too small: %d goals" % len(goals)]
+    return []
+
+
 CONFIG = {
     "properties_file": "Properties/C10.v",
     "proof_files": ["Base/Prelude.v", "Proofs/OciCrash.v"],
@@ -20,24 +167,27 @@ CONFIG = {
     "ml_main": "c10_main.ml",
     "harness": "c10",
     "case_to_replay": _c10_case,
+    "post_model": _c10_vm_sample,
     "timeout_quick": 600,
     "timeout_thorough": 3000,
     "assumptions": [
         "kernel file-system semantics are modelled, not verified: rename(2) is atomic, a completed system call's effect survives the death of the process (page cache), a process killed at the entry of a system call has not executed it; power loss / fsync is outside the property",
-        "store configuration: AutoSaveIndex = true (default) and AutoGC = false (plain Delete); GC and Delete-with-AutoGC are not scripted or modelled here (defects F1-F4 belong to C08/C09)",
+        "store configuration: AutoSaveIndex = true (default); AutoGC on or off. Delete with AutoGC and GC are modelled as one call that performs a LIST of primitive operations in a row (plain deletes; Forget = drop digest references outside the live set + saveIndex): which nodes a cascade or a sweep visits, and in which order, is C09's subject -- the theorem C10_crash_safe_composite holds for every list, and the harness reads the list off the recorded run (unlink order); Go's map order makes some cascades nondeterministic: a kill run whose order differs from the recorded one is judged by the oracle only (counted cascade-order-differs-unjudged)",
+        "ground truth of scripts with GC / AutoGC: the blob set and tag map before and after the interrupted call are observed on disk (killed before its first system call / completed run) instead of simulated; plain scripts keep the generator's simulator",
         "digest-and-size verification (content.NewVerifyReader, SHA-256) is the Section variable H: a content c matches the name d iff H c = d; no property of H is assumed",
         "encoding/json of index.json / oci-layout is abstracted: a file holds the marshalled entry list as one write unit and parses back to it; Go's map iteration order in saveIndex is the Section variable shuffle with hypothesis In e (shuffle c l) <-> In e l",
         "one descriptor per digest (the generator's universe); references are never digest strings; manifests are well-formed JSON (graph.Index succeeds)",
         "write(2) is modelled as all-or-nothing at system-call granularity (the process is killed at system-call entries); C10_no_in_place_write shows that only temporaries are ever written, so torn writes cannot reach a file a reader looks at",
         "oci.New on an existing layout is modelled as: no change on disk, tag resolver := loadIndex(index.json) (Model reopen/load); graph.IndexAll during loading is not modelled (it only reads)",
         "crash points = entries of the file-system system calls (strace trace set in harness/crashkit10/trace.go) of the thread running the operation; other system calls (futex, mmap, signals) do not change the directory",
-        "oci.New itself (creation of oci-layout / the first index.json) is outside the property (it speaks of an initialised store); oci-layout is still written in place by ensureOCILayoutFile",
+        "initialisation: the property speaks of an initialised store; taken into scope as 'initialisation is restartable' for ONE crash during the first oci.New on an empty directory (C10_init_restartable, kill at every system call); repeated crashes during initialisation are not modelled. oci.New on an existing layout is kill-tested at every system call (operation 'reopen'): it only reads",
+        "blob names are pairs (algorithm, digest) encoded as 1000*algorithm + n (0 = sha256, 1 = sha512); sha384 is not generated",
     ],
     "trusted_extra": [
         "strace 6.1 fault injection (-e inject=<syscall>:signal=KILL:when=<n>) and its trace output; the child runs with GOMAXPROCS=1 and the main goroutine locked to the first thread; the actual kill point is re-read from the trace of the killed run",
     ],
-    "level_text": "Coq theorem over every history of completed Push/Tag/Untag/Delete/SaveIndex operations, every interrupted operation and every cut of its file-system micro-step list (invariant proof, any verification function, any map iteration order): layout valid, every blob file complete and matching its name, index.json parses and names only existing blobs, index.json / tag mapping is the one before or the one after, no completed effect lost; the same after any number of earlier crashes each followed by oci.New on what was left (tag resolver reloaded from index.json, leftover temporaries in place); completed histories refine the sequential specification of the API; no file a reader looks at is ever written in place (write granularity irrelevant); the pre-repair in-place index write and the swapped Delete order are refuted by witnesses. The two orders the proof depends on (temp+rename index write, index before unlink) are re-read from the Go source on every run (translator kind callseq) and configure the model. The model is tied to the code by killing a real child process at every system call of the interrupted operation (strace inject) and comparing the directory with the model after the same number of micro-steps, by comparing the recorded system-call script with the model's micro-step list, and by an independent oracle (oci.New + raw readers + generator ground truth)",
-    "level_note": "full for AutoSaveIndex=true, AutoGC=false and the operations Push/Tag/Untag/Delete/SaveIndex; GC and Delete-with-AutoGC not covered (owned by C08/C09); kernel semantics (atomic rename, no loss at process death) modelled, not verified; JSON encoding and SHA-256 abstracted",
+    "level_text": "Coq theorem over every history of completed Push/Tag/Untag/Delete/SaveIndex operations, every interrupted operation and every cut of its file-system micro-step list (invariant proof, any verification function, any map iteration order): layout valid, every blob file complete and matching its name, index.json parses and names only existing blobs, index.json / tag mapping is the one before or the one after, no completed effect lost; the same after any number of earlier crashes each followed by oci.New on what was left (tag resolver reloaded from index.json, leftover temporaries in place); completed histories refine the sequential specification of the API; no file a reader looks at is ever written in place (write granularity irrelevant); the pre-repair in-place index write and the swapped Delete order are refuted by witnesses. Delete with AutoGC and GC: every cut of a call made of any list of primitives is a crash state of one primitive between two quiescent states of the call (C10_crash_safe_composite), after any earlier crashes; a crash during the first oci.New is repaired by the next one (C10_init_restartable). The orders the proofs depend on (temp+rename writes of index.json and oci-layout, index before unlink, GC: save before sweep) are re-read from the Go source on every run (translator kind callseq) and configure the model; the thorough tier re-evaluates a sample of kill cases inside Coq with vm_compute. The model is tied to the code by killing a real child process at every system call of the interrupted operation (strace inject) and comparing the directory with the model after the same number of micro-steps, by comparing the recorded system-call script with the model's micro-step list, and by an independent oracle (oci.New + raw readers + generator ground truth)",
+    "level_note": "full for AutoSaveIndex=true and the operations Push/Tag/Untag/Delete/SaveIndex; Delete-with-AutoGC and GC covered at the level 'any list of primitives' (what the cascade/sweep visits is read off the run; exactness is C09); kernel semantics (atomic rename, no loss at process death) modelled, not verified; JSON encoding and SHA-256 abstracted",
     "technique": "machine-checked proof in Coq (invariant over file-system micro-steps, every cut of every operation after every history) + model/implementation correspondence by real SIGKILL at every system-call boundary (strace) + independent oracle",
     "explanation": "theorems over all histories/operations/cuts about the micro-step model of content/oci (Store.Push/Tag/Untag/Delete/SaveIndex, Storage.Push/ingest/Delete, writeIndexFile); each run records the system calls of scripted operations on a real oci.Store in a child process, kills the child before every system call of the final operation, and compares directory, script and results with the extracted model; the oracle reopens the killed directory with oci.New and checks blobs, index entries, tag mapping (before/after) and completed effects against the generator's ground truth",
 }
